@@ -1398,6 +1398,11 @@ def b_hasattr(interp, st, args, kwargs):
 
 @reg("builtins.getattr", True)
 def b_getattr(interp, st, args, kwargs):
+    if len(args) > 2:
+        try:
+            return interp.getattr(st, args[0], st.deref(args[1]))
+        except Unsupported:
+            return args[2]
     return interp.getattr(st, args[0], st.deref(args[1]))
 
 
